@@ -62,6 +62,10 @@ def k7_calls(isa, t, tier, rng, half=None):
             ns = set(range(1, top + 1))
         if f == "g_norm_raw":
             ns |= {4, 9} | ({16} if full else set())
+        # the families whose back ends have a vector body + scalar remainder always get the extents one short of a
+        # multiple of the width (a body that runs one vector too far shows only there)
+        if f in ("g_norm_raw", "g_inner_map", "g_reduce_map", "g_minmax_map", "g_expr_arith", "g_methods_map"):
+            ns |= {x for x in (V - 1, 2 * V - 1) if x >= 1 and (half is None or f in ("g_norm_raw", "g_inner_map") or x % 2 == half or True)}
         for n in sorted(ns):
             if n >= 1:
                 calls.append("%s<%s,%d>();" % (f, t, n))
@@ -70,6 +74,8 @@ def k7_calls(isa, t, tier, rng, half=None):
     for i, n in enumerate(range(1, top + 1)):
         if half is not None and n % 2 != half:
             continue
+        if half is not None and t in ("int32_t", "int64_t") and n % 4 >= 2 and n not in (V - 1, V + 1, 2 * V + 1):
+            continue        # quick tier: the integer types take half of their share of the N sweep (C01 sweeps matmul in depth)
         fs = mm if full else [mm[i % 3]]
         for f in fs:
             m = rng.choice([1, 2, 3, 4, 5, 7, 8, 9, V + 1, 2 * V + 1])
@@ -109,7 +115,8 @@ def k7_calls(isa, t, tier, rng, half=None):
         calls.append("g_view2d<%s,%d,%d>();" % (t, m, n))
     for n in sizes(3, [rng.choice(edge)]):
         m = rng.choice([1, 2, 3, 4])
-        calls.append("g_outer_map<%s,%d,%d>();" % (t, m, n))
+        if (m, n) != (1, 1):        # outer(Tensor<T,1>, Tensor<T,1>) is an ambiguous overload: does not compile
+            calls.append("g_outer_map<%s,%d,%d>();" % (t, m, n))
         calls.append("g_outer_raw<%s,%d,%d>();" % (t, n, m))
     if isf:
         for (m, n) in [(2, 2), (3, 3), (1, 4), (1, 9), (4, 4)] + [(rng.randint(1, 4), n) for n in sizes(2)]:
@@ -154,12 +161,24 @@ def k7_calls(isa, t, tier, rng, half=None):
     if not isc:
         for (b, m) in ([(4, 3), (2, 3), (3, 2), (2, 4), (5, 3), (3, 8), (7, 3)] if full else ([(4, 3), (3, 2), (2, 4)] if isf else [(4, 3)])):
             special.append("g_own_batch<%s,%d,%d>();" % (t, b, m))
-            if isf:
+            if isf and m <= 4:      # batched determinant / inverse exist for matrices up to 4x4 (larger: `_det` asserts)
                 special.append("g_own_batch_la<%s,%d,%d>();" % (t, b, m))
         for n in sorted(set([V + 1, top] + ([3, 5, 7, 9, V, 2 * V, 2 * V + 1] if full else []))):
             special.append("g_own_1d<%s,%d>();" % (t, n))
         for (m, n) in ([(2, 2), (3, 3), (2, 3)] if full or isf else [(2, 2)]):
             special.append("g_outer22_map<%s,%d,%d>();" % (t, m, n))
+    # public routes into the kernels with hard-wired aligned accesses (ALIGNREQ when called raw): _matmul<float,8,K,8>,
+    # _dyadic<float,4,4>, _norm<float,4>, _det 2x2 - through maps, expressions of maps, einsum, batches
+    if t == "float":
+        special += ["g_matmul_map<float,8,8,8>();", "g_matmul_map<float,8,3,8>();", "g_matmul_expr<float,8,8,8>();", "g_matmul_expr<float,8,5,8>();",
+                    "g_einsum_ijjk<float,8,3,8>();", "g_outer_map<float,4,4>();", "g_matmul_map<float,4,1,4>();", "g_outer22_map<float,2,2>();",
+                    "g_norm_map<float,1,4>();", "g_norm_map<float,2,2>();", "g_norm_map<float,4,1>();"]
+    if isf:
+        # the fixed-size outer-product kernels (2, 3, 4 element vectors) raw and through maps
+        special += ["g_outer_raw<%s,3,3>();" % t, "g_outer_raw<%s,2,2>();" % t, "g_outer_raw<%s,4,4>();" % t, "g_outer_map<%s,3,3>();" % t,
+                    "g_matmul_map<%s,3,1,3>();" % t]
+        special += ["g_det_map<%s,2>();" % t, "g_own_batch_la<%s,3,2>();" % t, "g_own_batch_la<%s,5,2>();" % t, "g_outer22_map<%s,3,3>();" % t,
+                    "g_heap_new<%s,64>();" % t, "g_heap_new<%s,9>();" % t]
     nspecial = len(special)
     calls = special + calls
     # de-duplicate, drop non-positive extents
@@ -170,7 +189,7 @@ def k7_calls(isa, t, tier, rng, half=None):
         seen.add(c); out.append(c)
     return out
 
-KEEP = re.compile(r"g_(trans_assign|own_batch|own_1d|expr_arith|reduce_map|inner_map|methods_map|methods_tensor|view1d|expr_mixed|reduce_expr|expr_math|norm_raw|minmax_map|matmul_raw|matmul_map|matmul_expr)<")
+KEEP = re.compile(r"g_(outer_raw<\w+,[234],[234]>|trans_assign|own_batch|own_batch_la|heap_new|outer22_map|own_1d|expr_arith|reduce_map|inner_map|methods_map|methods_tensor|view1d|expr_mixed|reduce_expr|expr_math|norm_raw|minmax_map|matmul_raw|matmul_map|matmul_expr)<")
 
 def thin(calls, stride, seed):
     """quick tier: the families that carry the `every extent 1..2V+3` sweep and the public-API specials are kept, the
@@ -186,11 +205,14 @@ def k7_groups(tier, seed):
     isas = ["scalar", "sse2", "avx2", "avx512"] if tier == "quick" else core.ALL_ISAS
     groups = []
     for isa in isas:
-        types = TYPES if tier == "quick" else TYPES + CPLX
+        types = TYPES if tier == "quick" else (TYPES + CPLX if isa in ("sse2", "avx2", "avx512") else ["float", "int32_t"])
         for t in types:
             # quick tier: the two element types of equal size share the `every extent` sweeps (odd / even extents)
             half = None if tier != "quick" else ((seed + (1 if t in ("int32_t", "int64_t") else 0)) % 2)
-            calls = k7_calls(isa, t, tier, rng, half)
+            # thorough: every extent of every family under sse2 / avx2 / avx512; the other flag sets (same kernels, other widths or
+            # helper branches) get the un-thinned sampled corpus
+            gen_tier = tier if (tier == "quick" or (isa in ("sse2", "avx2", "avx512") and t in FTYPES)) else "quick"
+            calls = k7_calls(isa, t, gen_tier, rng, half)
             if tier == "quick":
                 calls = thin(calls, 6 if isa == "scalar" else 3, seed)
             groups.append({"key": "k7/%s/%s" % (isa, t), "header": "guard_ops.h", "isa": isa, "opt": "-O2", "calls": calls,
@@ -198,7 +220,7 @@ def k7_groups(tier, seed):
     if tier == "quick":     # one configuration of the remaining families and the complex types
         for isa, t in [("avx", "float"), ("avx", "int32_t"), ("sse42", "float"), ("avx2", "std::complex<double>"), ("sse2", "std::complex<float>"),
                        ("avx512", "std::complex<double>")]:
-            calls = thin(k7_calls(isa, t, tier, rng), 5, seed)
+            calls = thin(k7_calls(isa, t, tier, rng, seed % 2), 5, seed)
             groups.append({"key": "k7/%s/%s" % (isa, t), "header": "guard_ops.h", "isa": isa, "opt": "-O2", "calls": calls,
                            "pre": "#define VG_SEED %du" % (seed & 0xffff)})
     return groups
@@ -218,6 +240,10 @@ def corr_groups(tier, seed):
     groups = []
     for isa in isas:
         groups.append({"key": "foot/%s" % isa, "header": "foot_probe.h", "isa": isa, "opt": "-O2", "calls": ["run_helpers();", "run_aflags();"]})
+    for isa in ["sse2", "avx", "avx2", "avx512"] + (["sse42"] if tier != "quick" else []):
+        groups.append({"key": "kern3/%s" % isa, "header": "foot_probe.h", "isa": isa, "opt": "-O2", "calls": ["run_kern3();"]})
+    if tier != "quick":
+        groups.append({"key": "kern3/avx2-O0", "header": "foot_probe.h", "isa": "avx2", "opt": "-O0", "calls": ["run_kern3();"]})
     groups.append({"key": "aflag/scalar", "header": "foot_probe.h", "isa": "scalar", "opt": "-O2", "calls": ["run_aflags();"]})
     groups.append({"key": "aflag/dontalign", "header": "foot_probe.h", "isa": "avx2", "opt": "-O2", "defs": ["-DFASTOR_DONT_ALIGN"], "calls": ["run_aflags();"]})
     n = 40 if tier == "quick" else 400
@@ -243,20 +269,27 @@ def extra_k7_groups(tier, seed):
         o0 += ["g_own_batch<%s,4,3>();" % t, "g_trans_assign<%s,3,3>();" % t, "g_matmul_map<%s,3,3,3>();" % t, "g_view2d<%s,3,5>();" % t]
     for isa in (["sse2", "avx2"] if tier == "quick" else ["sse2", "avx", "avx2", "avx512"]):
         groups.append({"key": "k7-O0/%s" % isa, "header": "guard_ops.h", "isa": isa, "opt": "-O0", "calls": o0 if tier != "quick" else o0[::2], "pre": pre})
+    # C++17 (aligned operator new, if constexpr branches): a thin slice of the float / double corpus
+    for isa in ["avx2", "avx512"]:
+        calls = []
+        for t in FTYPES:
+            cs = thin(k7_calls(isa, t, "quick", rng, 0), 7, seed)
+            calls += [c for c in cs if "heap_new" in c] + [c for c in cs if "heap_new" not in c][seed % 3::3]
+        groups.append({"key": "k7-cxx17/%s" % isa, "header": "guard_ops.h", "isa": isa, "opt": "-O2", "std": "c++17", "calls": calls, "pre": pre})
     bc = ["g_bounds2d<%s,%d,%d>();" % (t, m, n) for t in ["float", "int64_t"] for (m, n) in [(3, 4), (1, 1), (5, 2)]]
     groups.append({"key": "k7-checks/sse2", "header": "guard_ops.h", "isa": "sse2", "opt": "-O1", "defs": ["-DVG_CHECKS", "-DNDEBUG"] + CHECKS_ON, "calls": bc, "pre": pre})
     groups.append({"key": "k7-checks/avx512", "header": "guard_ops.h", "isa": "avx512", "opt": "-O2", "defs": ["-DVG_CHECKS", "-UNDEBUG"], "calls": bc, "pre": pre})
     if tier == "thorough":
         for isa in ["sse2", "avx2", "avx512"]:
-            for t in TYPES:
+            for t in FTYPES + ["int32_t"]:
                 calls = thin(k7_calls(isa, t, "quick", rng), 3, seed)
                 groups.append({"key": "k7-asan/%s/%s" % (isa, t), "header": "guard_ops.h", "isa": isa, "opt": "-O1",
-                               "defs": ["-fsanitize=address,undefined", "-fno-sanitize-recover=undefined", "-fno-omit-frame-pointer"], "calls": calls, "pre": pre})
+                               "defs": ["-fsanitize=address,undefined", "-fno-sanitize=alignment", "-fno-sanitize-recover=undefined", "-fno-omit-frame-pointer"], "calls": calls, "pre": pre})
     return groups
 
 THEOREMS = ("Fastor.C07.load3_lanes, store3_lanes, maskLoop_mem, maskAvx_eq_maskLoop, arrayToMask_testBit, kmask_eq_maskLoop, remainderMask_lanes, "
-            "masked_tail_in_extent, bounds_check_sound, bounds_check_complete, memIndex_sound, aligned_only_on_owned, aligned_access_address_ladder, "
-            "matmul_final_reads_in_operands_partial, tmatmul_final_reads_in_operands_partial, assign_reads_in_operands, einsum_reads_in_operands")
+            "masked_tail_in_extent, member_mask_fallback_lanes, transpose33_footprint, matmul333_footprint, matmul3K3_footprint, matvec331_footprint, small_kernels_footprint, bounds_check_sound, bounds_check_complete, memIndex_sound, aligned_only_on_owned, aligned_access_address_ladder, "
+            "matmul_reads_in_operands, tmatmul_reads_in_operands, assign_reads_in_operands, einsum_reads_in_operands, view1d_footprint, view2d_footprint")
 
 def run(tier, seed):
     v = core.Verdict(PID, tier, seed)
@@ -291,7 +324,7 @@ def run(tier, seed):
                         {"kind": "correspondence", "broken": "model FastorModel.Model.Footprint (theorems %s) no longer describes the code: the real %s disagrees with the "
                          "model on the fields listed" % (THEOREMS, {"pfoot": "partial load/store helper (lanes loaded / written, lowest and highest lane whose access faults)",
                                                                      "bounds": "Tensor/TensorMap operator() (value read = flat offset, or exception)", "memidx": "get_mem_index",
-                                                                     "aflag": "is_aligned()"}.get(what, what)),
+                                                                     "aflag": "is_aligned()", "kern3": "fixed-size intrinsic kernel (lowest / highest operand offset whose access faults at a guard page, set of result elements written)"}.get(what, what)),
                          "input": m["input"], "impl": m["impl"], "model": m["model"], "fields": m["fields"], "group": m["group"]},
                         nofail=(what != "bounds"))
         kinds = {}
@@ -299,7 +332,7 @@ def run(tier, seed):
             k = inp.split()[0]; kinds[k] = kinds.get(k, 0) + 1
         # ---- K7 observations
         kg = k7_groups(tier, seed) + extra_k7_groups(tier, seed)
-        kn, kfail, kinfra, ksamples = flow.run_oracle_groups(kg, wd, per_tu=24 if tier == "quick" else 30)
+        kn, kfail, kinfra, ksamples = flow.run_oracle_groups(kg, wd, per_tu=24 if tier == "quick" else 16)
         # a translation unit that died (sanitizer abort, uncaught crash outside the protected region) names its group and output
         for e in kinfra:
             if e["what"].startswith("run"):
